@@ -19,8 +19,8 @@
 EXTENDS Integers, Sequences, FiniteSets, TLC, Json
 CONSTANTS WithInject,     \* FALSE: conforming programs only; TRUE: also one injection per program
           Cover           \* TRUE: the small exhaustive covering family
-VARIABLES phase, f1, f2, f3, lay, mainseq, inj
-vars == <<phase, f1, f2, f3, lay, mainseq, inj>>
+VARIABLES phase, f1, f2, f3, lay, mainseq, inj, extra
+vars == <<phase, f1, f2, f3, lay, mainseq, inj, extra>>
 \* inj = <<kind, function, variant>>
 
 L(t, g) == [t |-> t, g |-> g]
@@ -129,6 +129,16 @@ Blocks(seq, kinds, i) ==
   IF i > Len(seq) THEN <<>>
   ELSE CallBlock("F" \o S(seq[i][1]), kinds[seq[i][1]], seq[i][2], i) \o Blocks(seq, kinds, i + 1)
 
+\* ex: "none" | "alias" (a second label on the entry of F1) | "data-before" (a data block with a label directly before F2)
+ProgramX(k1, k2, k3, ly, ms, ex) ==
+  LET kinds == <<k1, k2, k3>>
+      F1 == (IF ex = "alias" THEN << L("F1_also:", "") >> ELSE <<>>) \o Leaf("F1", k1)
+      F2 == (IF ex = "data-before" THEN << L(".data", ""), L("buf: .word 0", ""), L(".text", "") >> ELSE <<>>) \o NonLeaf("F2", k2, "F1", ly)
+      F3 == IF k3 = "none" THEN <<>> ELSE Leaf("F3", k3)
+  IN << L(".data", ""), L("msg: .word 1, 2, 3", ""), L(".text", "text"), L("main:", "main:label") >>
+     \o Blocks(ms, kinds, 1)
+     \o << I("li a7, 10", "main:exit-a7"), I("ecall", "main:exit") >>
+     \o F1 \o F2 \o F3
 Program(k1, k2, k3, ly, ms) ==
   LET kinds == <<k1, k2, k3>>
       F1 == Leaf("F1", k1)
@@ -241,7 +251,7 @@ FirstLabelLine(p, i) == IF i > 1 /\ IsLabelLine(p[i - 1]) THEN FirstLabelLine(p,
 \* Cover = TRUE: a small exhaustive family in which every template meets every way its result is consumed
 \* (run in full by every check; the large family is sampled with tlc -simulate)
 MainSeqs == IF Cover THEN [1..2 -> (1..2) \X {2, 4}] ELSE UNION { [1..n -> (1..3) \X {2, 4}] : n \in 1..3 }
-Init == phase = "start" /\ f1 = "" /\ f2 = "" /\ f3 = "" /\ lay = <<16, 12, 8, 4>> /\ mainseq = <<>> /\ inj = <<"", "", 1>>
+Init == phase = "start" /\ f1 = "" /\ f2 = "" /\ f3 = "" /\ lay = <<16, 12, 8, 4>> /\ mainseq = <<>> /\ inj = <<"", "", 1>> /\ extra = "none"
 PickFns == /\ phase = "start"
            /\ \E a \in Leaves \ {"print"}, b \in {"wrap", "rec", "twice", "loadmax"}, c \in Leaves \cup {"none"}, ly \in Layouts :
                 \* the callee F1 must have the arity its caller F2 passes
@@ -249,6 +259,7 @@ PickFns == /\ phase = "start"
                 /\ (b = "loadmax" => Arity(a) = 2)
                 /\ (Cover => c = "none" /\ ly = <<16, 12, 8, 4>>)
                 /\ f1' = a /\ f2' = b /\ f3' = c /\ lay' = ly
+           /\ \E ex \in (IF WithInject THEN {"none"} ELSE {"none", "alias", "data-before"}) : extra' = ex
            /\ phase' = "main" /\ UNCHANGED <<mainseq, inj>>
 PickMain == /\ phase = "main"
             /\ \E ms \in MainSeqs :
@@ -256,22 +267,22 @@ PickMain == /\ phase = "main"
                  /\ \A k \in {1, 2} : \E i \in 1..Len(ms) : ms[i][1] = k      \* F1 and F2 are called (F1 also by F2)
                  /\ (f3 # "none" => \E i \in 1..Len(ms) : ms[i][1] = 3)
                  /\ mainseq' = ms
-            /\ phase' = (IF WithInject THEN "inject" ELSE "emit") /\ UNCHANGED <<f1, f2, f3, lay, inj>>
+            /\ phase' = (IF WithInject THEN "inject" ELSE "emit") /\ UNCHANGED <<f1, f2, f3, lay, inj, extra>>
 PickInj == /\ phase = "inject"
            /\ \E k \in InjKinds, fn \in {"F1", "F2"}, v \in 1..3 :
                 /\ (Cover /\ k \notin {"stack-at-entry-sp", "stack-above-entry-sp"} => v = 1)
                 /\ Inject(Program(f1, f2, f3, lay, mainseq), k, fn, v).ok
                 /\ inj' = <<k, fn, v>>
-           /\ phase' = "emit" /\ UNCHANGED <<f1, f2, f3, lay, mainseq>>
+           /\ phase' = "emit" /\ UNCHANGED <<f1, f2, f3, lay, mainseq, extra>>
 Emit == /\ phase = "emit"
-        /\ LET base == Program(f1, f2, f3, lay, mainseq)
+        /\ LET base == ProgramX(f1, f2, f3, lay, mainseq, extra)
                r == IF WithInject THEN Inject(base, inj[1], inj[2], inj[3]) ELSE [ok |-> TRUE, prog |-> base, exp |-> E({}, "", -1)]
            IN PrintT("CASE " \o ToJson([text |-> TextOf(r.prog, 1), f1 |-> f1, f2 |-> f2, f3 |-> f3, lay |-> lay,
                                         nmain |-> Len(mainseq), inj |-> inj[1], fn |-> inj[2], variant |-> inj[3],
                                         codes |-> r.exp.codes, line |-> LineOfTag(r.prog, r.exp.tag),
                                         alt |-> (IF r.exp.alt = "" THEN -1 ELSE FirstLabelLine(r.prog, Idx(r.prog, r.exp.tag)) - 1),
                                         reg |-> r.exp.reg]))
-        /\ phase' = "done" /\ UNCHANGED <<f1, f2, f3, lay, mainseq, inj>>
+        /\ phase' = "done" /\ UNCHANGED <<f1, f2, f3, lay, mainseq, inj, extra>>
 Next == PickFns \/ PickMain \/ PickInj \/ Emit
 Spec == Init /\ [][Next]_vars
 =============================================================================
